@@ -26,7 +26,7 @@ from vf import core  # noqa: E402
 from vf.core import PROVED, REFUTED, UNDECIDED, Ob  # noqa: E402
 
 CONTRACT_MODULES = ["contracts.nodes", "contracts.times", "contracts.captures", "contracts.deref", "contracts.typing", "contracts.toplevel", "contracts.anymacro",
-                    "contracts.driver", "contracts.config", "contracts.parser", "contracts.macros", "contracts.cli_main",
+                    "contracts.driver", "contracts.validaddr", "contracts.faults", "contracts.config", "contracts.parser", "contracts.macros", "contracts.cli_main",
                     "contracts.canaries"]
 
 TRUSTED_BASE = [
